@@ -35,6 +35,7 @@ func (r *vrand) n(n int) int {
 func (r *vrand) u32() uint32     { return uint32(r.u64()) }
 func (r *vrand) chance(p int) bool { return r.n(100) < p }
 func (r *vrand) pick(xs ...int) int { return xs[r.n(len(xs))] }
+func (r *vrand) pickS(xs ...string) string { return xs[r.n(len(xs))] }
 
 func vEnvInt(name string, def int) int {
 	if s := os.Getenv(name); s != "" {
